@@ -48,7 +48,14 @@ func (s SrcSpec) String() string {
 	return "full"
 }
 
-var ErrCustom = errors.New("verif: injected source failure")
+// injected is a distinct concrete error type (io.EOF and errors.New values share *errors.errorString).
+type injected struct{ msg string }
+
+func (e *injected) Error() string { return e.msg }
+
+var ErrCustom error = &injected{"verif: injected source failure"}
+
+var _ = errors.New
 
 func sizeOf(code string, req int) int {
 	switch code {
@@ -96,6 +103,16 @@ func MakeSource(spec SrcSpec, data []byte) *seam.Source {
 				}
 				return seam.Answer{}, false
 			}
+			if spec.Err == "typedthen" {
+				// a typed device error once, then the stream is over (errors of two different concrete types)
+				if call == spec.Index {
+					return seam.Answer{N: 0, Err: ErrCustom}, true
+				}
+				if call > spec.Index {
+					return seam.Answer{N: 0, Err: io.EOF}, true
+				}
+				return seam.Answer{}, false
+			}
 			if call != spec.Index {
 				return seam.Answer{}, false
 			}
@@ -124,8 +141,9 @@ type Params struct {
 	Workflow string    `json:"workflow"`
 	Scenario string    `json:"scenario"`
 	Src      SrcSpec   `json:"src"`
-	Srcs     []SrcSpec `json:"srcs,omitempty"` // several source behaviours explored one after the other in one sub-process
-	Mode     string    `json:"mode"`           // c08 | c09 | c10
+	Srcs     []SrcSpec `json:"srcs,omitempty"`  // several source behaviours explored one after the other in one sub-process
+	Mode     string    `json:"mode"`            // c08 | c09 | c10
+	Prime    string    `json:"prime,omitempty"` // another parallel workflow called first in the same execution, on an empty source
 }
 
 // ---------- scenario catalogue (deterministic, shared by parent and sub-process) ----------
@@ -346,6 +364,10 @@ func handleOne(t e1.Task, p Params) (*e1.Result, map[uint64]struct{}) {
 		returned := false
 		body := func() {
 			vsched.SetStateDigest(run.Digest)
+			if pw := wf.ByName(p.Prime); pw != nil {
+				// state left behind by an earlier call of another workflow (pooled buffers, caches) must not matter
+				_, _ = pw.Fast(&seam.Source{Data: nil})
+			}
 			verdict, err = w.Fast(src)
 			returned = true
 		}
@@ -394,6 +416,8 @@ func handleOne(t e1.Task, p Params) (*e1.Result, map[uint64]struct{}) {
 				switch {
 				case len(run.Torn) > 0:
 					v.Violation = fmt.Sprintf("a runner was handed bytes that are not a fresh consecutive stream sample: %v", run.Torn)
+				case wrongSize(run, w.N) != 0:
+					v.Violation = fmt.Sprintf("a runner was handed a sample of %d bytes, the workflow's samples have %d", wrongSize(run, w.N), w.N)
 				case verdict != ref.Verdict:
 					v.Violation = fmt.Sprintf("parallel verdict (%v, %s) differs from sequential (%v, %s)", verdict, errs, ref.Verdict, ref.Err)
 				case !verdict && item != ref.Item:
@@ -414,4 +438,13 @@ func handleOne(t e1.Task, p Params) (*e1.Result, map[uint64]struct{}) {
 	res := e1.FromStats(t, st, time.Since(start))
 	res.Extra = map[string]int{"completion_orders": len(orders)}
 	return res, st.States
+}
+
+func wrongSize(run *seam.Run, n int) int {
+	for _, c := range run.CallSeq() {
+		if c.Len != n {
+			return c.Len
+		}
+	}
+	return 0
 }
